@@ -11,3 +11,14 @@ func verifYield(point string, arg interface{}) {
 		f(point, arg)
 	}
 }
+
+// VerifFault, when set, may make WriteMsg fail before anything is written (a transient write error at a
+// chosen message), so that the error paths of the callers can be exercised on demand.
+var VerifFault func(point string, arg interface{}) error
+
+func verifFault(point string, arg interface{}) error {
+	if f := VerifFault; f != nil {
+		return f(point, arg)
+	}
+	return nil
+}
